@@ -55,13 +55,22 @@ def _stacks(lines):
     return stacks
 
 
+def _name(frame):
+    fn, path, _ = frame
+    base = path.split("/")[-1]
+    # lambdas / call operators carry no information in their name: use the file they live in
+    if fn in ("op", "?", "") or fn.startswith("op") and not fn[2:3].isalnum() or fn.startswith("<lambda"):
+        return "lambda@" + base
+    return fn
+
+
 def _top_dispenso(stack):
     own = [f for f in stack if "/dispenso/" in f[1] and "third-party" not in f[1]]
     if own:
-        return own[0][0]
+        return _name(own[0])
     tp = [f for f in stack if "/dispenso/" in f[1]]
     if tp:
-        return tp[0][0]
+        return _name(tp[0])
     return None
 
 
@@ -72,13 +81,13 @@ def _mk(tool, kind, title, lines, case_idx, case_key):
     if tool == "tsan":
         tops = []
         for s in stacks[:2]:
-            t = _top_dispenso(s) or (s[0][0] if s else "?")
+            t = _top_dispenso(s) or (_name(s[0]) if s else "?")
             tops.append(t)
         sig = "%s:%s:%s" % (tool, kindslug, "|".join(sorted(set(tops))))
     else:
         t = None
         for s in stacks[:1]:
-            t = _top_dispenso(s) or (s[0][0] if s else None)
+            t = _top_dispenso(s) or (_name(s[0]) if s else None)
         sig = "%s:%s:%s" % (tool, kindslug, t or "?")
     return {"tool": tool, "kind": kind, "title": title, "text": "\n".join(lines), "sig": sig,
             "in_dispenso": in_disp, "case_idx": case_idx, "case_key": case_key}
